@@ -7,6 +7,7 @@ package main
 // must not appear.  Properties: C18 (imports dropped / foreign / unsorted), C19 (file set).
 
 import (
+	"bytes"
 	"errors"
 	"fmt"
 	"go/parser"
@@ -221,6 +222,15 @@ func scanExpect(res *corr.Result, lane string, es []scanEntry, tags map[string]b
 				res.Distribution[lane+"-entry:MatchFile-rejects"]++
 				continue
 			}
+		}
+		if bytes.IndexByte(e.data, 0) >= 0 {
+			// a NUL byte anywhere is a hard error of ReadImports whatever reportSyntaxError says (as in go/build;
+			// C18's whole-input clause is stated for NUL-free inputs), while go/parser in ImportsOnly mode never
+			// looks past the import section: such a file is no "syntactically valid Go file" and the oracle,
+			// which takes go/parser's acceptance as validity, does not apply
+			res.Distribution[lane+"-entry:candidate-with-NUL(hard-error-by-design)"]++
+			applicable = false
+			continue
 		}
 		lits, ok := parserImports(e.data, parser.ImportsOnly)
 		if !ok {
